@@ -46,7 +46,7 @@ partial def forestOfJson : List Json → Forest
 end
 
 def cfgOfJson (j : Json) : Cfg :=
-  { sourceless := getBoolD j "sourceless", recursive := getBoolD j "recursive", initDot := getBoolD j "initDot" }
+  { sourceless := getBoolD j "sourceless", recursive := getBoolD j "recursive" }
 
 /-- `null` entries = configured locations that do not exist (`os.path.exists(vers)` false) -/
 def locsOfJson (j : Json) : List Dir :=
@@ -100,7 +100,7 @@ def handle (op : String) (j : Json) : Option Json :=
       | some (some l) => obj [("locations", names l)])
   | "files.match" =>
     let n := nm (getStrD j "name")
-    let m := match matchRevFile (getBoolD j "initDot") (getBoolD j "sourceless") n with
+    let m := match matchRevFile (getBoolD j "sourceless") n with
       | none => Json.null
       | some (g, k) => Json.arr #[str g, Json.str (kindStr k)]
     some (obj [("match", m),
